@@ -76,6 +76,9 @@ def _generate_operator(ns, node):
                 r2 = to_signed(r2)
         r = f"{r1} {operator} {r2}"
         s = s1 or s2
+        # The result of a comparison is always an unsigned bit.
+        if operator in ["<", "<=", "==", "!=", ">", ">="]:
+            s = False
 
     # Ternary Operator.
     if arity == OperatorType.TERNARY:
